@@ -382,7 +382,7 @@ func ruleReindexSiblings(c *Ctx, r *Reporter) {
 					}
 					key := stripConv(call.Call.Args[1])
 					phi, ok := key.(*ssa.Phi)
-					if !ok || len(phi.Edges) != 2 {
+					if !ok || len(phi.Edges) < 2 {
 						return false
 					}
 					raw, enc := false, false
@@ -392,6 +392,7 @@ func ruleReindexSiblings(c *Ctx, r *Reporter) {
 							raw = true
 							continue
 						}
+						other := true
 						if ec, ok := e.(*ssa.Call); ok && c.calleeName(ec) == "statedb.encodeNonUniqueKey" && stripConv(ec.Call.Args[1]) == ssa.Value(cl.Params[0]) {
 							// first arg: the captured idKey; guarded by unique == false
 							if p, ok := isLoad(ec.Call.Args[0]); ok {
@@ -404,16 +405,44 @@ func ruleReindexSiblings(c *Ctx, r *Reporter) {
 												return ok
 											}) {
 												enc = true
+												other = false
 											}
 										}
 									}
 								}
 							}
 						}
+						if other {
+							return false // a third form of the key
+						}
 					}
 					return raw && enc
 				}
 				return false
+			}
+			// a unique key may have been taken over by another object in the meantime (insert B with A's
+			// key, then remove A): the entry is removed only after looking at whose it is, as the LPM
+			// sibling removeKey does. On the path that does not build the composite (non-unique) key,
+			// Delete is reached only through a Get of the same key.
+			{
+				owner := false
+				var delCall, getCall, encCall ssa.Instruction
+				for _, ia := range allInstrs(delCl) {
+					if call, ok := ia.In.(*ssa.Call); ok {
+						switch c.calleeName(call) {
+						case "part.(Txn).Delete":
+							delCall = call
+						case "part.(Txn).Get":
+							getCall = call
+						case "statedb.encodeNonUniqueKey":
+							encCall = call
+						}
+					}
+				}
+				if delCall != nil && getCall != nil {
+					owner = !entryReachesAvoiding(delCl, delCall, func(in ssa.Instruction) bool { return in == getCall || in == encCall })
+				}
+				r.check(owner, name+"|a unique entry is removed only if it still belongs to the object", c.posStr(fn.Pos()), "on the unique path the stored entry is looked up before it is deleted", "the old key of a unique index is deleted without checking that the entry still belongs to the object being removed: after `insert B with A's key; delete A` B is in the table but missing from the unique index")
 			}
 			r.check(xform(insCl, "part.(Txn).Insert") && xform(delCl, "part.(Txn).Delete"), name+"|same key transform for insert and delete", c.posStr(fn.Pos()),
 				"both closures use the raw key for unique indexes and encodeNonUniqueKey(idKey, key) otherwise",
